@@ -9,10 +9,12 @@ LEVEL = "exploration"
 RULE = ("TESTCMD chains of `bumpver test` (see C05) with 35% of steps using --set-version targets derived by the reference "
         "model (greater, equal, lower, junk, trailing text, PEP 440-equal alternative spelling, tag downgrade, other scheme), "
         "plus LIFE histories of `update`/`update --dry` in generated projects. distinct_nontrivial = distinct (pattern part "
-        "set, flag set, set-version kind, clock relation, outcome) in which a version was announced or a rejection was due.")
+        "set, flag set, set-version kind, clock relation, outcome) in which a version was announced or a rejection was due."
+        " UNQUOTED: a TOML config whose current_version is a bare number (1.10, 2026.1100, 25.10): every command refuses, or behaves as if it had read the text as written.")
 ASSUMPTIONS = ["reference recogniser (ref.pattern) and vendored packaging.version decide 'matches in full' and 'greater'"]
 COMPONENTS = {"bumpver cli test/update": "real", "clock": "simulated", "files": "real scratch directory",
-              "VCS": "FakeRepo or none"}
+              "VCS": "FakeRepo or none",
+              "config (UNQUOTED)": "real loader on a TOML current_version written as a bare number"}
 CAMPAIGNS = [TestCmd("C01", quick=20000, thorough=800000, sv_rate=0.35),
              Life("C01", quick=6000, thorough=300000, sv_rate=0.35, dry_rate=0.3),
              Tags("C01", quick=3000, thorough=100000),
